@@ -80,6 +80,20 @@ where
             f64_ev::<F>(ev, lay, a, f);
         }
     }
+    // fixed values 0, +-1 ulp against floats at +-{1/4, 1/2, 3/4, 1, 3/2} ulp (rounding to zero from either side,
+    // ties at zero), for both float widths
+    for &a in [0u128, 1, lay.mask()].iter() {
+        for &(m, e) in [(1u128, 2i32), (1, 1), (3, 2), (1, 0), (3, 1)].iter() {
+            for &neg in [false, true].iter() {
+                if let Some(f) = make_float(32, neg, m, -(lay.f as i32) - e) {
+                    f32_ev::<F>(ev, lay, a, f);
+                }
+                if let Some(f) = make_float(64, neg, m, -(lay.f as i32) - e) {
+                    f64_ev::<F>(ev, lay, a, f);
+                }
+            }
+        }
+    }
     for _ in 0..args.n {
         let a = gen_fixed_for_float(&mut rng, lay, 32);
         let f = gen_float_for(&mut rng, lay, 32, a);
